@@ -57,8 +57,9 @@ PROP = dict(
         not_modelled='PARTIAL: the OS scheduler and the memory ordering of JoinHandle::is_finished/join (the hook serialises real '
                      'thread completions into finish events; a finished thread\'s join returns its result at once; on the file-loading path the real '
                      'schedule is whatever the OS does — the model is run under a random schedule and load_schedule_independent says it does not matter); '
-                     'pixel colours (palette abstracted to its length; the unused default background colour P2), the allocator: numbers in the payload that '
-                     'request more than 2^26 rows/bytes end the model with the outcome "huge" (finding key=alloc), i32 overflow of '
+                     'pixel colours (palette abstracted to its length; the unused default background colour P2), the allocator (numbers in the payload beyond '
+                     'MAX_SIXEL_SIZE / MAX_SIXEL_COLORS are parse errors since the size-limit repairs; the model outcome "huge" - a request of more than 2^26 '
+                     'rows/bytes - is unreachable: C03.sixel_never_huge; former finding key=alloc), i32 overflow of '
                      'pixel coordinates in get_screen_rect and of (pixels + font - 1), f32 rounding in as_rectangle beyond 2^24 pixels; the text between '
                      'the sequences of a file (the caret position of each sequence is an input of the model, predicted by the generator from its own '
                      'CUP / text / CRLF segments), crop_loaded_file and the bold pass (cells of layer 0 only), a decode error aborts the whole load '
